@@ -74,6 +74,8 @@ def run_property(prop, tier, procs=16, only=None, tv=True):
     hm = importlib.import_module('harness.' + prop.lower())
     pkg_names = getattr(hm, 'PACKAGES', ('pyclifford',))
     _PKNAMES = pkg_names
+    if only and not os.environ.get('EVIDENCE_SUFFIX'):
+        os.environ['EVIDENCE_SUFFIX'] = '.partial'        # a filtered (debugging) run never overwrites the property's evidence file
     setup_errors = []
     try:
         _PK = packages(pkg_names)
